@@ -155,6 +155,7 @@ class C01(Prop):
     def cases(self, rng, tier, budget):
         checklib.use_repo()
         g = F.Gen(rng, tier)
+        yield {"op": "tables", "args": {}}            # documented enumerations == the code's tables (both inclusions)
         for i in range(budget):
             spec = g.spec()
             if i % 7 == 5:
@@ -188,6 +189,8 @@ class C01(Prop):
 
     def _real(self, case):
         checklib.use_repo()
+        if case["op"] == "tables":
+            return {"tables": F.tables()}
         import shutil
         from productmd.composeinfo import ComposeInfo
         a = case["args"]
@@ -349,6 +352,8 @@ class C01(Prop):
 
     # ---- model side
     def model_requests(self, case):
+        if case["op"] == "tables":
+            return []
         a = case["args"]
         if a.get("alias_top") is not None:
             return []           # not a forest: outside the tree model (the arena model of C11 covers it)
@@ -388,7 +393,11 @@ class C01(Prop):
         if checklib.canon(real_out.get("dumps")) != checklib.canon(model_out.get("dumps")):
             diffs["dumps"] = (real_out.get("dumps"), model_out.get("dumps"))
         if "doc" in model_out and "ok" in (real_out.get("dumps") or {}):
-            if json.loads(real_out["dumps"]["ok"]) != model_out["doc"]:
+            try:
+                parsed = json.loads(real_out["dumps"]["ok"])
+            except ValueError:
+                parsed = "<the written text is not a JSON document>"
+            if parsed != model_out["doc"]:
                 diffs["doc"] = "serialize() value differs from the parsed real text"
         for k in ("loads", "redump"):
             if k in real_out or k in model_out:
@@ -401,6 +410,15 @@ class C01(Prop):
 
     # ---- the property itself, on the real library
     def oracle(self, case, real_out):
+        if case["op"] == "tables":
+            t = real_out["tables"]
+            for name, doc in (("categories", F.CATEGORIES), ("release_types", F.DOC_RELEASE_TYPES), ("compose_types", F.DOC_COMPOSE_TYPES),
+                              ("label_names", F.DOC_LABEL_NAMES), ("variant_types", F.DOC_VARIANT_TYPES)):
+                if sorted(t[name]) != sorted(doc):
+                    return {"observed": {"table": name, "missing": sorted(set(doc) - set(t[name])), "extra": sorted(set(t[name]) - set(doc)),
+                                         "duplicates": len(t[name]) != len(set(t[name]))},
+                            "required": "the code's table is exactly the documented set", "kind": "table-differs"}
+            return None
         a = case["args"]
         # what the objects hold after construction is what was put in (any documented way of filling them, two
         # descriptions assembled side by side)
@@ -507,9 +525,13 @@ class C01(Prop):
         return None
 
     def nontrivial(self, case, real_out):
+        if case["op"] == "tables":
+            return True
         return "ok" in (real_out.get("dumps") or {})
 
     def stats(self, case, real_out, dist):
+        if case["op"] == "tables":
+            return
         a = case["args"]
         spec = a["spec"]
         d = real_out.get("dumps") or {}
@@ -536,6 +558,8 @@ class C01(Prop):
                 dist["cat:" + cat] = dist.get("cat:" + cat, 0) + 1
 
     def shrink_candidates(self, case):
+        if case["op"] == "tables":
+            return []
         a = case["args"]
         spec = a["spec"]
         out = []
